@@ -141,6 +141,17 @@ def header_truth(raw):
     d = {'edition': w['edition'], 'data_category': w['category'], 'n_subsets': w['nsub'],
          'is_compressed': w['compressed'], 'master_table_version': w['version'], 'length': w['total'],
          'local_table_version': w['local_version']}
+    # fields whose presence depends on the edition's section 1 layout (absent -> the lookup gives None)
+    o1 = w['sections'][1][0]
+    if w['edition'] == 4:
+        d['originating_subcentre'] = int.from_bytes(raw[o1 + 6:o1 + 8], 'big')
+        d['master_table_number'] = raw[o1 + 3]
+    elif w['edition'] == 3:
+        d['originating_subcentre'] = raw[o1 + 4]
+        d['master_table_number'] = raw[o1 + 3]
+    else:
+        d['originating_subcentre'] = None
+        d['master_table_number'] = raw[o1 + 3]
     for k, (_o, l) in w['sections'].items():
         d['%d.section_length' % k] = l
     return d
@@ -163,6 +174,12 @@ FILTERS = [
     ('${%%2.section_length} is None', lambda h, a: '2.section_length' not in h),
     ('True', lambda h, a: True),
     ('False', lambda h, a: False),
+    ('${%%originating_subcentre} == %(sub)d', lambda h, a: h['originating_subcentre'] == a['sub']),
+    ('${%%originating_subcentre} is None', lambda h, a: h['originating_subcentre'] is None),
+    ('${%%master_table_number} == 0 and ${%%originating_subcentre} != %(sub)d',
+     lambda h, a: h['master_table_number'] == 0 and h['originating_subcentre'] != a['sub']),
+    ('${%%1.section_length} > %(l1)d', lambda h, a: h['1.section_length'] > a['l1']),
+    ('${%%3.section_length} >= %(l3)d', lambda h, a: h['3.section_length'] >= a['l3']),
 ]
 
 
@@ -170,10 +187,13 @@ def gen_filter(rng, items):
     idx = rng.randrange(len(FILTERS))
     hs = [header_truth(bytes.fromhex(it['hex'])) for it in items] or [{'data_category': 0, 'n_subsets': 1,
                                                                       'edition': 4, 'master_table_version': 13,
-                                                                      'length': 100}]
+                                                                      'length': 100, 'originating_subcentre': 0,
+                                                                      '1.section_length': 22, '3.section_length': 9}]
     h = rng.choice(hs)
     args = {'cat': h['data_category'], 'ns': max(0, h['n_subsets'] - rng.randint(0, 1)), 'ed': h['edition'],
-            'ver': h['master_table_version'], 'len': h['length'] + rng.choice([0, 1])}
+            'ver': h['master_table_version'], 'len': h['length'] + rng.choice([0, 1]),
+            'sub': h['originating_subcentre'] or 0, 'l1': h['1.section_length'] - rng.choice([0, 1]),
+            'l3': h['3.section_length'] + rng.choice([0, 1])}
     return {'idx': idx, 'args': args, 'expr': FILTERS[idx][0] % args}
 
 
@@ -188,7 +208,9 @@ def gen_stream_fault(rng, raw, kinds):
     kind = rng.choice(kinds)
     if kind == 'stopsig':
         b = rng.choice([b'7778', b'0000', b'777' + bytes([rng.randrange(256)]),
-                        bytes(rng.randrange(256) for _ in range(4)), b'\x00777', b'7777'[::-1][:3] + b'x'])
+                        bytes(rng.randrange(256) for _ in range(4)), b'\x00777', b'7777'[::-1][:3] + b'x',
+                        # bytes that mean something to text formatting (the error text quotes them)
+                        b'77{7', b'{}77', b'}777', b'{0}7', b'%s%d', b'7%77', b'\\x77', b'\xff\xfe77', b"7'7\""])
         if b == b'7777':
             b = b'7770'
         return {'kind': 'stopsig', 'bytes': b.hex()}
@@ -274,6 +296,8 @@ def gen_plan(family, seed, pool, tier='quick'):
         plan.update({'engine': 'streamsim', 'family': family, 'seed': seed})
         if family == 'c12-eof':
             plan.update({'family': 'c12', 'sub': 'eof'})
+        if family == 'c11-big':
+            plan.update({'family': 'c11', 'sub': 'big'})
         if plan['family'] in ('c11', 'c12', 'c17-stream'):
             lay = finalize(plan)
             if not lay['ok']:
@@ -311,6 +335,36 @@ def _gen_plan(family, rng, pool, tier):
         knobs = {'mode': mode, 'coe': rng.random() < 0.5, 'front': front,
                  'compiled': rng.choice([None, None, 2, 0]) if front in ('api', 'cli-decode') else None,
                  'filter': flt}
+        return {'knobs': knobs, 'items': items, 'seps': seps}
+
+    if family == 'c11-big':
+        # long streams (beyond 64 KiB, up to ~300 KB): whatever reads the input in pieces, buffers it or
+        # keeps an offset meets its borders inside messages, also inside messages that hold a start
+        # signature. A few distinct messages repeated (the plan stays small in memory).
+        k = rng.randint(3, 9)
+        emb = [e for e in pool if small(e) and ('B' in e['cls'] or 'S' in e['cls'])]
+        base = _pick(rng, pool, k, small)
+        embB = [e for e in emb if 'B' in e['cls']]
+        if embB and rng.random() < 0.5:
+            base = [rng.choice(embB) for _ in range(k)]      # every message holds a start signature
+        elif emb:
+            for j in range(rng.randint(1, max(1, k // 2))):
+                base[j] = rng.choice(emb)
+        base_items = [_item(e) for e in base]
+        target = rng.choice([66000, 70000, 90000, 131500, 140000, 200000, 300000])
+        items, size = [], 0
+        p_sep = rng.choice([0.0, 0.0, 0.1, 0.5])
+        seps = []
+        while size < target and len(items) < 900:
+            it = rng.choice(base_items)
+            sep = gen_separator(rng)[1] if rng.random() < p_sep else b''
+            seps.append(sep.hex())
+            items.append(it)
+            size += len(it['hex']) // 2 + len(sep)
+        seps.append(gen_separator(rng)[1].hex() if rng.random() < 0.3 else '')
+        front = rng.choice(['api', 'cli-split', 'cli-split', 'cli-info-c', 'cli-info-m'])
+        mode = 'info' if front != 'api' else rng.choice(['info', 'info', 'full'])
+        knobs = {'mode': mode, 'coe': rng.random() < 0.5, 'front': front, 'compiled': None, 'filter': None}
         return {'knobs': knobs, 'items': items, 'seps': seps}
 
     if family in ('c12', 'c12-eof'):
@@ -750,6 +804,18 @@ def exec_c17(plan):
                 out['fq'].append([ex, 'err', exc_info(e)])
     except Exception as e:
         out['fq_exc'] = exc_info(e)
+    # the same lookups through the command line (`query`, `script`) on the UNDAMAGED message: every
+    # consumer of a metadata expression follows the same rule. (Whether those commands decode
+    # metadata-only is not a clause of the property, so they are not run on damaged data.)
+    out['cli'] = []
+    for k, ex in enumerate([e for e in plan.get('exprs', []) if e.strip().startswith('%')][:3]):
+        r = run_cli(['query', ex, 'in.bufr'], {'in.bufr': raw})
+        lines = r['stdout'].splitlines()
+        out['cli'].append([ex, 'query', lines[1] if len(lines) > 1 else None, bool(r['stderr'].strip()), r['exc']])
+        inner = [ex, ' ' + ex + ' ', ex + '  '][k % 3]
+        r = run_cli(['script', 'a = ${%s}\nprint(repr(a))' % inner, 'in.bufr'], {'in.bufr': raw})
+        lines = r['stdout'].splitlines()
+        out['cli'].append([ex, 'script', lines[0] if lines else None, bool(r['stderr'].strip()), r['exc']])
     return out
 
 
@@ -1113,6 +1179,20 @@ def oracle_c17(plan, tr):
                             'got': st if st == 'ok' else val['type'], 'how': 'full'})
         elif st != 'ok' or val != exp[1]:
             out.append({'property': 'C17', 'clause': 'C17.a-lookup', 'expr_class': expr_class(ex), 'how': 'full'})
+    # the command line fronts
+    if not out:
+        for ex, front, val, err, exc in tr.get('cli', []):
+            exp = md_expected(ex, secs)
+            if exp[0] == 'skip':
+                continue
+            if exc is not None:
+                out.append({'property': 'C17', 'clause': 'C17.b-cli-traceback', 'front': front,
+                            'expr_class': expr_class(ex), 'exc_type': exc['type']})
+            elif exp[0] == 'err':
+                if not err or val is not None:
+                    out.append({'property': 'C17', 'clause': 'C17.b-reject', 'expr_class': expr_class(ex), 'how': front})
+            elif err or (val != exp[1] and not (front == 'query' and _unquoted(exp[1]) == val)):
+                out.append({'property': 'C17', 'clause': 'C17.a-lookup', 'expr_class': expr_class(ex), 'how': front})
     # ground truth by construction for synthetic messages
     if it.get('truth') and not out:
         by = {}
@@ -1130,6 +1210,13 @@ def oracle_c17(plan, tr):
                 if n == 'section_length' and tl.get(str(idx)) is not None and v != repr(tl[str(idx)]):
                     out.append({'property': 'C17', 'clause': 'C17.a-truth', 'name': '%d.section_length' % idx})
     return out[:3]
+
+
+def _unquoted(r):
+    """`print(value)` of a text value shows it without the quotes of its repr"""
+    if isinstance(r, str) and len(r) >= 2 and r[0] == r[-1] and r[0] in '\'"':
+        return r[1:-1]
+    return r
 
 
 def expr_class(ex):
@@ -1193,6 +1280,9 @@ def shape(plan, tr=None):
             return 'n'
         per = tuple((it['cls'], _fk(it['fault']) if it.get('fault') else '', sc(s))
                     for it, s in zip(plan['items'], seps))
+        if plan.get('sub') == 'big':
+            size = sum(len(it['hex']) // 2 for it in plan['items']) + sum(len(x) for x in seps)
+            per = (tuple(sorted(set(per))), size // 65536)
         return (fam + '-' + plan['sub'] if plan.get('sub') else fam, per, kn.get('mode'), kn.get('coe'),
                 kn.get('front'), kn.get('compiled'),
                 (kn.get('filter') or {}).get('idx'), (kn.get('warm') or {}).get('how'))
